@@ -85,6 +85,38 @@ for (reorg, cortime, depth, dt) in [(30.0, 100.0, 3, 1.0), (0.0, 100.0, 2, 1.0),
             bad.append("zero coupling, cortime %g, depth %d, dt %g: differs from the closed-system dynamics by %.3g"
                        % (cortime, depth, dt, numpy.abs(r - ref).max()))
 
+# ---- uncoupled sites: convergence with the depth to the analytic pure-dephasing solution exp(-i w t - g(t)) ---------------------------
+try:
+    from quantarhei.core.units import kB_intK, cm2int
+
+    def _uncoupled(depth_):
+        tc_ = qr.TimeAxis(0.0, 300, 1.0)
+        with qr.energy_units("1/cm"):
+            ms_ = [qr.Molecule([0.0, 10000.0 + 200.0 * k_]) for k_ in range(2)]
+            for m_ in ms_:
+                m_.set_transition_environment((0, 1), qr.CorrelationFunction(tc_, dict(ftype="OverdampedBrownian", reorg=30.0, cortime=100.0, T=300.0)))
+            ag_ = qr.Aggregate(ms_)
+        ag_.build()
+        h_ = ag_.get_Hamiltonian()
+        h_.set_rwa([0, 1])
+        return h_, KTHierarchy(h_, ag_.get_SystemBathInteraction(), depth_)
+    devs_ = {}
+    for depth_ in (2, 6):
+        h_, hy_ = _uncoupled(depth_)
+        t_ = qr.TimeAxis(0.0, 200, 1.0)
+        r0_ = qr.ReducedDensityMatrix(dim=3)
+        r0_.data[:, :] = numpy.array([[0.5, 0.5, 0], [0.5, 0.5, 0], [0, 0, 0]])
+        got_ = numpy.array(KTHierarchyPropagator(t_, hy_).propagate(r0_).data)[:, 1, 0]
+        lam_, gam_, kT_ = 30.0 * cm2int, 1.0 / 100.0, kB_intK * 300.0
+        g_ = (2 * lam_ * kT_ / gam_ ** 2 - 1j * lam_ / gam_) * (numpy.exp(-gam_ * t_.data) + gam_ * t_.data - 1)
+        w_ = numpy.array(h_.data)[1, 1] - h_.rwa_energies[1]
+        devs_[depth_] = abs(got_ - 0.5 * numpy.exp(-1j * w_ * t_.data - g_)).max()
+    if devs_[6] > 1e-2 or devs_[6] > devs_[2] / 10:
+        bad.append("uncoupled sites: optical coherence does not converge to exp(-i w t - g(t)) with the depth "
+                   "(deviation %.3e at depth 2, %.3e at depth 6)" % (devs_[2], devs_[6]))
+except Exception as e_:      # noqa
+    bad.append("pure-dephasing convergence part raised %s: %s" % (type(e_).__name__, str(e_)[:120]))
+
 for b in bad[:12]:
     print("VIOLATED:", b)
 print("C16 oracle: %d violations" % len(bad))
